@@ -108,6 +108,7 @@ def leaf(profile='plain'):
         st.just({'$nv': 1}),
         st.just({'$sym': 'things:CONST_OBJ'}), st.just({'$sym': 'things:f2'}),
         st.just({'$sym': 'things:Base'}), st.just({'$sym': 'things:DICT_OBJ'}),
+        st.just({'$sym': 'things:DICT_OBJ_NEW'}),
     )
   if profile == 'hashable_ser':  # dict keys / set elements
     return st.one_of(
